@@ -16,7 +16,7 @@ import numpy as np
 from simcore.core import new_outcome, violation, bump
 
 PID = 'C12'
-QUICK_RUNS = 300
+QUICK_RUNS = 600
 QUICK_SECONDS = 150
 THOROUGH_SECONDS = 900
 CASE_TIMEOUT = 300
